@@ -71,7 +71,8 @@ def run_case(ctx, mr, case):
 def gen_cases(ctx, rng, writes):
     for _ in range(ctx.n(500, 20000)):
         case = cc.gen_case(rng, writes)
-        case['ctr'] = min(case['ctr'], (1 << 128) - 1 - (case['sz'] // 16 + 96))
+        # keep every reachable position (large cases seek up to 0x4000 + 17*12, writes extend) below 2^128 blocks
+        case['ctr'] = min(case['ctr'], (1 << 128) - 1 - 2048)
         yield case
 
 
